@@ -204,6 +204,7 @@ fn record_facts(st: &mut Stats, f: &Facts, h: &History) {
     st.add("remapped_adds", f.remapped_adds);
     st.add("tranche_ambiguous", f.tranche_ambiguous);
     st.add("c04/strict_pairs", f.strict_pairs);
+    st.add("sibling_level_ops", f.sibling_ops);
     st.add("ticket_queue/matches_predicted_exactly", f.tq_predicted);
     st.add("ticket_queue/matches_not_predicted", f.tq_mismatch);
     if f.boundary {
